@@ -1,0 +1,65 @@
+//! Virtual time: replacements for `coarsetime::Instant` and `std::time::Instant::now()`.
+use std::time::Duration;
+
+use super::try_rt;
+
+fn virtual_now() -> Duration {
+    try_rt().map(|r| r.now()).unwrap_or_default()
+}
+
+/// Duration type with the few operations the batcher needs from `coarsetime::Duration`.
+#[derive(Clone, Copy, Debug, PartialEq, Eq, PartialOrd, Ord)]
+pub struct VDuration(Duration);
+
+impl From<Duration> for VDuration {
+    fn from(d: Duration) -> Self {
+        VDuration(d)
+    }
+}
+
+/// Stand-in for `coarsetime::Instant`.
+#[derive(Clone, Copy, Debug, PartialEq, Eq, PartialOrd, Ord)]
+pub struct Instant(Duration);
+
+impl Instant {
+    pub fn now() -> Self {
+        Instant(virtual_now())
+    }
+    pub fn elapsed(&self) -> VDuration {
+        VDuration(virtual_now().saturating_sub(self.0))
+    }
+}
+
+/// Stand-in for `std::time::Instant` (same arithmetic, virtual `now`).
+#[derive(Clone, Copy, Debug, PartialEq, Eq, PartialOrd, Ord, Hash)]
+pub struct StdInstant(Duration);
+
+impl StdInstant {
+    pub fn now() -> Self {
+        StdInstant(virtual_now())
+    }
+    pub fn elapsed(&self) -> Duration {
+        virtual_now().saturating_sub(self.0)
+    }
+    pub fn duration_since(&self, earlier: StdInstant) -> Duration {
+        self.0.saturating_sub(earlier.0)
+    }
+}
+impl std::ops::Add<Duration> for StdInstant {
+    type Output = StdInstant;
+    fn add(self, d: Duration) -> StdInstant {
+        StdInstant(self.0 + d)
+    }
+}
+impl std::ops::Sub<Duration> for StdInstant {
+    type Output = StdInstant;
+    fn sub(self, d: Duration) -> StdInstant {
+        StdInstant(self.0.saturating_sub(d))
+    }
+}
+impl std::ops::Sub<StdInstant> for StdInstant {
+    type Output = Duration;
+    fn sub(self, o: StdInstant) -> Duration {
+        self.0.saturating_sub(o.0)
+    }
+}
